@@ -215,6 +215,27 @@ pub fn scalar_group<G: CurveGroup>(t: &mut Tally, name: &str, rng: &mut Rng) whe
             }
         }
     }
+    // fixed-base batch multiplication: table sizings on both sides of the window thresholds (window 3 below 32 scalars,
+    // ln-based above), scalar fields whose bit size is / is not a multiple of the window, scalars at the top of the field
+    {
+        use ark_ec::scalar_mul::BatchMulPreprocessing;
+        let rm1 = G::ScalarField::from_le_bytes_mod_order(&(&r - 1u8).to_bytes_le());
+        for n in [1usize, 3, 31, 32, 33, 129, 257] {
+            let mut scal: Vec<G::ScalarField> = (0..n).map(|i| match i % 5 { 0 => G::ScalarField::rand(&mut rr), 1 => rm1, 2 => G::ScalarField::from(i as u64), 3 => -G::ScalarField::from(i as u64 + 1), _ => G::ScalarField::rand(&mut rr) }).collect();
+            scal[0] = rm1;
+            let want: Vec<G> = scal.iter().map(|s| naive(&g, &to_big(s))).collect();
+            let sc = scal.clone();
+            match std::panic::catch_unwind(std::panic::AssertUnwindSafe(move || g.batch_mul(&sc))) {
+                Ok(got) => note(t, "batch_mul", got.len() == n && got.iter().zip(&want).all(|(a, b)| G::from(*a) == *b), &|| format!("batch_mul of {n} scalars != [k_i * G]")),
+                Err(_) => note(t, "batch_mul panics", false, &|| format!("batch_mul of {n} scalars panics: {}", crate::LAST_PANIC.lock().map(|g| g.clone()).unwrap_or_default().replace('\n', " "))),
+            }
+            let sc = scal.clone();
+            match std::panic::catch_unwind(std::panic::AssertUnwindSafe(move || { let tb = BatchMulPreprocessing::new(g, n); tb.batch_mul(&sc) })) {
+                Ok(got) => note(t, "BatchMulPreprocessing", got.len() == n && got.iter().zip(&want).all(|(a, b)| G::from(*a) == *b), &|| format!("BatchMulPreprocessing::new(g, {n}).batch_mul != [k_i * G]")),
+                Err(_) => note(t, "BatchMulPreprocessing panics", false, &|| format!("BatchMulPreprocessing::new(g, {n}).batch_mul panics")),
+            }
+        }
+    }
     for (kind, (w, n)) in bad {
         t.fails.push(format!("{name}: {kind}: {w} [{n} failing (point, scalar) pairs]"));
     }
